@@ -215,6 +215,8 @@ func main() {
 	lap("crash")
 	m.stageArmor(&jobs)
 	lap("armor")
+	m.stageKeyList(&jobs)
+	lap("keylist")
 
 	// longest first, stable
 	sort.SliceStable(jobs, func(i, j int) bool { return jobs[i].cost > jobs[j].cost })
@@ -229,6 +231,11 @@ func main() {
 
 	m.checkUniqueness()
 	m.checkEndCoverage()
+	for _, p := range []string{"ParseIdentities", "ParseRecipients"} {
+		if r.Counter("keylist_tampered_cases_"+p) < 100 {
+			m.r.Inconclusive("key-list stage: only %d tampered cases went through age.%s", r.Counter("keylist_tampered_cases_"+p), p)
+		}
+	}
 	m.report()
 
 	r.Set("max_true_prefix_released_before_an_error", m.maxPrefix.Load())
